@@ -534,11 +534,14 @@ class TrackerProp(Prop):
 
 class C12(TrackerProp):
     id = "C12"; module = "Adsb.Theorems.C12"; design_ref = "5/C12"
+    modules = ["Adsb.Theorems.C12", "Adsb.Theorems.C12b"]
     deps = []
     rule = ("generated histories (60 x 150 ops quick): 1-5 interleaved aircraft (DF17 and DF18, announced address != parity), identification / velocity / "
             "position (consistent flights, jumps, garbage, repeats) / other type codes / other downlink formats, waits and expiry calls; after every "
             "operation the whole map is compared; non-trivial = operations on a non-empty tracker")
-    claim = "added iff new, count +1 per tracked frame, other formats no-op, isolation over arbitrary interleavings, keys sorted/unique (theorems for every history)"
+    claim = ("added iff new, count +1 per tracked frame, other formats no-op, isolation over arbitrary interleavings, keys sorted/unique (theorems for every history); "
+             "account_refines: for every history of frames and expiries the tracker projected to one address IS the abstract (count, lastHeard) machine; "
+             "count_eq_frames / count_restarts: message count = number of DF17/18 frames of the address since it was (re)added")
     def pick(self, allpos, recs, order): return tuple((k, recs[k]["msgs"]) for k in order)
 
 class C13(TrackerProp):
@@ -563,9 +566,11 @@ class C14(TrackerProp):
 
 class C15(TrackerProp):
     id = "C15"; module = "Adsb.Theorems.C15"; design_ref = "5/C15"
+    modules = ["Adsb.Theorems.C15", "Adsb.Theorems.C12b"]
     deps = []
     rule = C12.rule + "; waits on both sides of each threshold T in {0,1,2,120} s by 60 ms (clock advanced through the verif_age_all hook)"
-    claim = "prune(T) keeps exactly the records heard less than T seconds ago, unchanged; a reappearing aircraft is added fresh (theorems; the wall clock is a parameter)"
+    claim = ("prune(T) keeps exactly the records heard less than T seconds ago, unchanged; a reappearing aircraft is added fresh (theorems; the wall clock is a parameter); "
+             "account_refines: over whole histories of frames and expiries each address follows the abstract (count, lastHeard) machine with exactly this expiry rule")
     note = "the real clock is replaced by the cfg-guarded hook Airplanes::verif_age_all in the correspondence (equivalent to advancing the clock); real elapsed time between operations is below the 60 ms margin"
     histories = (80, 120)
     def pick(self, allpos, recs, order): return tuple(order)
@@ -580,8 +585,10 @@ class C20(Prop):
     rule = ("structured + malformed frames (decode, render, velocity, CPR pairing) and tracker histories without clock operations through the std and the "
             "alloc-only build: outputs must be byte-identical; serde_json round trip (Debug text equal) of every decodable frame and of the tracker after "
             "every history in the std+serde and alloc+serde builds")
-    claim = "position logic, attributes and 'added' are independent of the build configuration and the clock (theorems); whole-run equality of the two builds and serde round trips by execution"
-    note = "partial: the lift of the per-step independence to whole histories, serde / serde_json internals and float text round trips are exercised, not proved"
+    claim = ("run_erase / builds_agree / records_agree: for EVERY history of frames, the std build (any clock readings) and the alloc-only build end in states equal up to the "
+             "std-only time stamps, with identical Added answers, keys, published positions and details availability (induction over histories from the per-step lemmas); "
+             "the decoder has no cfg-dependent semantics (regenerated cfg item list); execution of the four builds and serde_json round trips on generated frames and tracker states")
+    note = "partial: serde / serde_json internals and float text round trips are exercised, not proved; the decoder's configuration independence rests on the regenerated list of cfg items plus execution of both builds"
     def ops(self, rng, tier):
         n = 3000 if tier == "quick" else 30000
         ops = structured(rng, n) + malformed(rng, n // 4)
